@@ -64,6 +64,11 @@ def run(check, prog):
     # the seed given to a strategy reaches the subset draw (rule shared with C13)
     c13.wiring(check, prog)
     point_independence(check, prog)
+    # where a pixel sits: make_coords / data_grid put pixel (i, j) at
+    # (i * spacing_x, j * spacing_y) for scalar and per-axis spacings, which the
+    # grid / points / crop comparison presupposes (rule shared with C16)
+    from . import c16
+    c16.grid(check, prog)
 
 
 def purity(check, prog):
